@@ -117,6 +117,34 @@ v('C11', 'fire', 'filters.py', '    T = error_model.transform_to_output(trajecto
 v('C14', 'fire', 'inertial_sensor.py', '                if actual != nominal:', '                if not np.isclose(actual, nominal):', 'seeded C14 round 4: table column dropped for a parameter within isclose tolerance of nominal')
 v('C14', 'silent', 'inertial_sensor.py', '                if actual != nominal:', '                if not actual == nominal:', 'same exact test, other spelling')
 v('C14', 'silent', 'inertial_sensor.py', '                if actual != nominal:', '                if actual - nominal != 0:', 'same exact test on the deviation')
+FL = 'filters.py'
+v('C11 C12', 'fire', FL, '    gyro_sd = np.diagonal(P_gyro, axis1=1, axis2=2) ** 0.5', '    gyro_sd = np.diagonal(P_gyro, axis1=1, axis2=2) ** 1.0', 'survey: variance reported as sd')
+v('C11 C12', 'fire', FL, '    P_gyro = P[:, gyro_block, gyro_block]', '    P_gyro = P[:, accel_block, gyro_block]', 'survey: cross block')
+v('C11 C12', 'fire', FL, '        util.mm_prod_symmetric(T, P_ins), axis1=1, axis2=2) ** 0.5', '        util.mm_prod_symmetric(P_ins, T), axis1=1, axis2=2) ** 0.5', 'survey: congruence operands exchanged')
+v('C12', 'fire', FL, '    accel_sd = np.diagonal(P_accel, axis1=1, axis2=2) ** 0.5', '    accel_sd = np.diagonal(P_accel, axis1=1, axis2=3) ** 0.5', 'survey: axis out of range')
+v('C12', 'silent', FL, '    gyro_sd = np.diagonal(P_gyro, axis1=1, axis2=2) ** 0.5', '    gyro_sd = np.sqrt(np.diagonal(P_gyro, axis1=1, axis2=2))')
+v('C12', 'fire', FL, 'gyro_result.append(gyro_model.get_estimates())', 'gyro_result.append(accel_model.get_estimates())', 'survey: estimates of the other model recorded')
+v('C12', 'fire', FL, '        times_result.append(time)\n        gyro_result', '        times_result.append(next_time)\n        gyro_result', 'survey: recorded time of another epoch')
+v('C12', 'fire', FL, 'gyro=pd.DataFrame(gyro_result, index=times_result),', 'gyro=pd.DataFrame(accel_result, index=times_result),', 'result key bound to the other list')
+v('C11', 'fire', FL, '    trajectory = trajectory.loc[times_result]', '    trajectory = trajectory_nominal.loc[times_result]', 'survey: the nominal table handed over as the computed one')
+v('C11', 'fire', FL, '        _compute_feedforward_result(x_result, P_result, trajectory_nominal, trajectory,', '        _compute_feedforward_result(P_result, x_result, trajectory_nominal, trajectory,', 'state and covariance exchanged')
+v('C11', 'fire', FL, '        gyro=gyro,\n        gyro_sd=gyro_sd,\n        accel=accel,', '        gyro=accel,\n        gyro_sd=gyro_sd,\n        accel=gyro,', 'result keys exchanged')
+v('C11 C12', 'fire', FL, 'P_pva = np.zeros((9, 9))', 'P_pva = np.ones((9, 9))', 'survey: correlated initial errors')
+v('C11 C12 C08', 'fire', FL, '    F = np.zeros((n_states, n_states))', '    F = np.ones((n_states, n_states))', 'survey: background of the joint transition matrix')
+v('C11 C12 C08', 'fire', FL, '    G = np.zeros((n_states, n_noises))', '    G = np.ones((n_states, n_noises))', 'survey: background of the noise input matrix')
+v('C11 C08', 'fire', FL, '    q = np.hstack((gyro_model.v, accel_model.v, gyro_model.q, accel_model.q))', '    q = np.hstack((gyro_model.v, gyro_model.q, accel_model.v, accel_model.q))', 'noise intensities in another order than the blocks')
+v('C11 C08', 'silent', FL, 'G @ np.diag(q**2) @ G.transpose()', '(G * q**2) @ G.T', 'same congruence, other spelling')
+v('C10 C11', 'fire', FL, '    while index + 1 < len(trajectory):', '    while index + 2 < len(trajectory):', 'survey: last interval never processed')
+v('C10', 'silent', FL, '    while index + 1 < len(trajectory):', '    while index < len(trajectory_nominal) - 1:')
+v('C09 C12', 'fire', FL, '    while integrator.get_time() < end_time:', '    while integrator.get_time() <= end_time:', 'survey: one iteration past the last increment')
+v('C12', 'fire', FL, '        gyro_average = increments_batch[THETA_COLS].sum(axis=0) / time_delta', '        gyro_average = increments_batch[THETA_COLS].sum(axis=0) * time_delta', 'survey: increments times the interval')
+v('C11', 'fire', FL, '            accel_average = increments_batch[DV_COLS].sum(axis=0) / time_delta', '            accel_average = increments_batch[THETA_COLS].sum(axis=0) / time_delta', 'survey: rotation increments for the accelerometer model')
+v('C11', 'silent', FL, '            accel_average = increments_batch[DV_COLS].sum(axis=0) / time_delta', '            accel_average = increments_batch[DV_COLS].values.sum(0) * (1 / time_delta)')
+v('C09 C12', 'fire', FL, '        next_time = min(time + time_step,\n                        measurement_times[measurement_time_index])\n        next_increment_index', '        next_time = min(time - time_step,\n                        measurement_times[measurement_time_index])\n        next_increment_index', 'survey: step bound before the current time')
+v('C11', 'fire', FL, '    x = np.zeros(len(P))', '    x = np.ones(len(P))', 'survey: non-zero initial error state')
+v('C11', 'fire', FL, 'P = _initialize_covariance(trajectory_nominal.iloc[0], position_sd', 'P = _initialize_covariance(trajectory_nominal.iloc[1], position_sd', 'survey: initial covariance mapped at the second row')
+v('C02 C09', 'fire', 'strapdown.py', 'return self.trajectory.index[-1]', 'return self.trajectory.index[-2]', 'survey: stale time from the accessor')
+v('C02', 'silent', 'strapdown.py', 'return self.trajectory.iloc[-1]', 'return self.trajectory.iloc[len(self.trajectory) - 1].copy()')
 SM_ = 'sim.py'
 v('C06', 'fire', SM_, 'velocity_b = util.mv_prod(mat_nb, trajectory[VEL_COLS], at=True) + error', 'velocity_b = util.mv_prod(mat_nb, trajectory[VEL_COLS]) + error', 'body-velocity simulator projects with C instead of C^T')
 v('C06', 'fire', SM_, 'lla = transform.perturb_lla(trajectory[LLA_COLS], error)', 'lla = transform.perturb_lla(trajectory[VEL_COLS], error)', 'survey: position simulator perturbs the velocity columns')
